@@ -53,6 +53,7 @@ def target_apply_filters():
 
     def run(sess: Session):
         n = 0
+        seen = set()
         for excl in ([], [0, 2]):
             def once():
                 d = FakeData("d")
@@ -63,16 +64,18 @@ def target_apply_filters():
                 return d, args
             for log, (d, args), facts in DF.explore(once):
                 n += 1
-                want = []
-                if log[0][1]:
-                    want.append("low_pass")
-                if log[1][1]:
-                    want.append("high_pass")
-                if excl:
-                    want.append("set_mask")
+                asked = {w.key: v for w, v in log}
                 got = [c[0] for c in d.calls]
-                tag = f"[low>0={log[0][1]},high>0={log[1][1]},exclude={excl}]"
-                sess.check("post", [], z3.BoolVal(got == want), 0, label=f"filters applied in order low_pass, high_pass, set_mask exactly when requested{tag}")
+                # the specification is stated over the two conditions themselves, not over the decisions the code happens to take:
+                # a condition the path never asked about may hold or not, and the calls must be right for both
+                for lo, hi in itertools.product((False, True), repeat=2):
+                    if asked.get("gt(low, lit:0.0)", lo) != lo or asked.get("gt(high, lit:0.0)", hi) != hi:
+                        continue
+                    want = (["low_pass"] if lo else []) + (["high_pass"] if hi else []) + (["set_mask"] if excl else [])
+                    tag = f"[low>0={lo},high>0={hi},exclude={excl}]"
+                    sess.check("post", [], z3.BoolVal(got == want), 0, label=f"filters applied in order low_pass, high_pass, set_mask exactly when requested{tag}")
+                    seen.add((lo, hi, bool(excl)))
+                tag = f"[{','.join(f'{w}={v}' for w, v in log)},exclude={excl}]"
                 for c in d.calls:
                     if c[0] == "low_pass":
                         DF.eq_check(sess, f"low_pass(args.low_pass_cutoff){tag}", c[1], args.low_pass_cutoff)
@@ -80,7 +83,7 @@ def target_apply_filters():
                         DF.eq_check(sess, f"high_pass(args.high_pass_cutoff){tag}", c[1], args.high_pass_cutoff)
                     if c[0] == "set_mask":
                         sess.check("post", [], z3.BoolVal(c[1] == {i: True for i in excl}), 0, label=f"set_mask({{i: True for excluded i}}){tag}")
-        sess.check("cover", [], z3.BoolVal(n == 8), 0, label=f"paths={n}")
+        sess.check("cover", [], z3.BoolVal(len(seen) == 8), 0, label=f"all 8 combinations of the three conditions covered (paths={n})")
     return (f"{UTIL}:{qual}", UTIL, qual, run)
 
 
@@ -342,5 +345,11 @@ def target_drt_command(which: str):
     return (f"{DRTM}:{qual}", DRTM, qual, run)
 
 
+def target_cli_purity():
+    from . import purity
+    return purity.target([("cli/utility", ["get_mock_data", "apply_filters", "_parse_identity", "format_text", "parse_inputs"], ())],
+                         title="CLI helpers keep no state between calls (no module-level writes)")
+
+
 def targets():
-    return [target_apply_filters(), target_get_mock_data(), target_parse_command(), target_fit_command(), target_simulate(), target_drt_command("individual_plots"), target_drt_command("overlay_plot")]
+    return [target_cli_purity(), target_apply_filters(), target_get_mock_data(), target_parse_command(), target_fit_command(), target_simulate(), target_drt_command("individual_plots"), target_drt_command("overlay_plot")]
